@@ -329,6 +329,17 @@ impl<'a> MulAssign<&'a DD> for DD {
 thread_local! {
     /// count of narrowing calls made on DD values (must stay 0 inside the matrix routine)
     pub static DD_NARROW: RefCell<u64> = const { RefCell::new(0) };
+    /// lenient mode: transcendental methods are evaluated in f64 on the high part instead of panicking
+    /// (used where only the comparisons of the generic code matter, e.g. edge selection)
+    pub static DD_LENIENT: RefCell<bool> = const { RefCell::new(false) };
+}
+
+fn dd_transcendental(name: &str, x: &DD, f: impl Fn(f64) -> f64) -> DD {
+    if DD_LENIENT.with(|l| *l.borrow()) {
+        DD::from(f(x.hi))
+    } else {
+        panic!("DD: transcendental {name} not available")
+    }
 }
 
 impl MomTropFloat for DD {
@@ -343,19 +354,20 @@ impl MomTropFloat for DD {
         DD { hi: std::f64::consts::PI, lo: 1.2246467991473532e-16 }
     }
     fn ln(&self) -> Self {
-        panic!("DD: transcendental ln not available")
+        dd_transcendental("ln", self, f64::ln)
     }
     fn exp(&self) -> Self {
-        panic!("DD: transcendental exp not available")
+        dd_transcendental("exp", self, f64::exp)
     }
     fn cos(&self) -> Self {
-        panic!("DD: transcendental cos not available")
+        dd_transcendental("cos", self, f64::cos)
     }
     fn sin(&self) -> Self {
-        panic!("DD: transcendental sin not available")
+        dd_transcendental("sin", self, f64::sin)
     }
-    fn powf(&self, _p: &Self) -> Self {
-        panic!("DD: transcendental powf not available")
+    fn powf(&self, p: &Self) -> Self {
+        let e = p.hi;
+        dd_transcendental("powf", self, move |x| f64::powf(x, e))
     }
     fn sqrt(&self) -> Self {
         DD::sqrt_dd(self)
